@@ -53,6 +53,10 @@ STRUCTS = {
     'S23': ('o1', [dict(motif='xaxis4', pose='flipx', at=(2.0, 3.0, 4.0)), dict(motif='xaxis4', pose='id', at=(5.0, 8.0, 9.0))], 'xaxis4'),
     # far from the origin (a tolerance that scaled with the coordinate value would accept the pseudo-symmetric renumbering)
     'S24': ('big', [dict(motif='pseudo6', pose='p1', at=(50.0, 52.0, 49.0))], 'pseudo6'),
+    'S29': ('big', [dict(motif='chiralflat4', pose='p1', at=(8.0, 9.0, 7.0)), dict(motif='chiralflat4', pose='p3', at=(48.0, 51.0, 50.0), kind='mirror'),
+                    dict(motif='chiralflat4', pose='p5', at=(30.0, 45.0, 52.0))], 'chiralflat4'),
+    'S28': ('big', [dict(motif='pseudoaxis5', pose='p2', at=(48.0, 51.0, 50.0))], 'pseudoaxis5'),
+    'S28t': ('bigt', [dict(motif='pseudoaxis5', pose='p5', at=(33.0, 41.0, 44.0))], 'pseudoaxis5'),
     'S24t': ('bigt', [dict(motif='pseudo6', pose='p4', at=(35.0, 40.0, 45.0))], 'pseudo6'),
     # two copies stored site by site (see PERMS), first pattern element occurring twice
     'S25': ('o1', [dict(motif='mirror-pair5', pose='p2', at=(2.5, 3.0, 3.0)), dict(motif='mirror-pair5', pose='p5', at=(6.5, 7.5, 8.0))], 'mirror-pair5'),
@@ -61,8 +65,10 @@ STRUCTS = {
     # two occurrences sharing two atoms (C and F of a CH2F group; the second H is the mirror image of the first in the C-F plane... a
     # three-atom pattern is planar, so both C-F-H triples are proper images); discovery order follows the coordinate scan, not the indices
     'S27': ('o2', [dict(kind='raw', el=['H', 'C', 'F', 'H', 'Cl'], pos=[(-0.4, 0.9, 0.45), (0, 0, 0), (1.35, 0, 0), (-0.4, 0.9, -0.45), (-0.7, -1.5, 0.0)], pose='p3', at=(3.0, 6.0, 4.0))], 'CFH'),
+    'S27b': ('o2', [dict(kind='raw', el=['H', 'C', 'F', 'H', 'Cl'], pos=[(-0.4, 0.9, -0.45), (0, 0, 0), (1.35, 0, 0), (-0.4, 0.9, 0.45), (-0.7, -1.5, 0.0)], pose='p3', at=(3.0, 6.0, 4.0))], 'CFH'),
+    'S27c': ('t1', [dict(kind='raw', el=['H', 'H', 'C', 'F', 'Cl'], pos=[(-0.4, 0.9, -0.45), (-0.4, 0.9, 0.45), (0, 0, 0), (1.35, 0, 0), (-0.7, -1.5, 0.0)], pose='rz90', at=(3.0, 4.0, 3.0))], 'CFH'),
 }
-EXPECTED = {'S27': [(1, 2, 0), (1, 2, 3)]}
+EXPECTED = {'S27': [(1, 2, 0), (1, 2, 3)], 'S27b': [(1, 2, 0), (1, 2, 3)], 'S27c': [(2, 3, 0), (2, 3, 1)]}
 PERMS = {'S25': [0, 5, 1, 6, 2, 7, 3, 8, 4, 9]}
 PAT_POSE = {'S14': 'rz90', 'S15': 'ry90', 'S20': 'diag111', 'S21': 'diag1-11'}
 # stretch kind with factor 0.01 on a 1.3 A motif = 0.013 A: well inside the tolerance -> counts as an occurrence
@@ -149,18 +155,22 @@ def std_instances(tier, seed, families=('face',)):
         kw.setdefault('family', 'find')
         out.append(dict(name=name, **kw))
     others = [(0.0, 0.0, 0.0), (0.37, 0.93, 0.55)]
-    quick_structs = ['S1', 'S2', 'S3', 'S4', 'S5', 'S6', 'S8', 'S10', 'S11', 'S12', 'S13', 'S14', 'S15', 'S16', 'S17', 'S18', 'S19', 'S20', 'S21', 'S22', 'S23', 'S24', 'S24t', 'S25', 'S26', 'S27']
+    quick_structs = ['S1', 'S2', 'S3', 'S4', 'S5', 'S6', 'S8', 'S10', 'S11', 'S12', 'S13', 'S14', 'S15', 'S16', 'S17', 'S18', 'S19', 'S20', 'S21', 'S22', 'S23', 'S24', 'S24t', 'S25', 'S26', 'S27', 'S28', 'S28t', 'S29']
     if tier == 'thorough':
         quick_structs.append('S9')
     for sname in quick_structs:
         for ax in range(3):
             o = others[(ax + len(sname)) % 2]
-            if tier == 'quick' and sname in ('S3', 'S5', 'S6', 'S8', 'S10', 'S11', 'S12', 'S13', 'S14', 'S15', 'S16', 'S17', 'S18', 'S19', 'S20', 'S21', 'S22', 'S23', 'S24', 'S24t', 'S25', 'S26') and ax != (1 if sname == 'S24t' else (len(sname) + int(sname[1:])) % 3):
+            if STRUCTS[sname][0] in ('big', 'bigt'):
+                o = (0.01, 0.02, 0.03)       # stay far from the origin on the concrete axes
+            if tier == 'quick' and sname in ('S3', 'S5', 'S6', 'S8', 'S10', 'S11', 'S12', 'S13', 'S14', 'S15', 'S16', 'S17', 'S18', 'S19', 'S20', 'S21', 'S22', 'S23', 'S24', 'S24t', 'S25', 'S26', 'S28', 'S28t', 'S29') and ax != (1 if sname.endswith('t') else (len(sname) + int(sname[1:])) % 3):
                 continue
-            add(f"find:{sname}:axis{ax}:other{others.index(o)}", struct=sname, axes=[ax], other=o, cost=15,
+            add(f"find:{sname}:axis{ax}:other{others.index(o) if o in others else 2}", struct=sname, axes=[ax], other=o, cost=15,
                 **({'pat_pose': PAT_POSE[sname]} if sname in PAT_POSE else {}), **({'perm': PERMS[sname]} if sname in PERMS else {}))
     for ax in (0, 1, 2):
         add(f"find:S27:axis{ax}:two-occurrences-sharing-atoms", struct='S27', axes=[ax], other=(0.15, 0.8, 0.45), cost=10)
+        add(f"find:S27b:axis{ax}:two-occurrences-sharing-atoms:scan-order-against-index-order", struct='S27b', axes=[ax], other=(0.15, 0.8, 0.45), cost=10)
+        add(f"find:S27c:axis{ax}:two-occurrences-sharing-atoms", struct='S27c', axes=[ax], other=(0.65, 0.1, 0.45), cost=10)
     add("find:S7:axis0:ch4-random-choice", struct='S7', axes=[0], other=(0, 0.4, 0.9), cost=60)
     add("find:S7:axis2:ch4-swapped-storage-order", struct='S7', axes=[2], other=(0.3, 0.4, 0), perm=[0, 2, 1, 3, 4], cost=60)
     add("find:S12:axis1:swapped-storage-order", struct='S12', axes=[1], other=(0.3, 0, 0.9), perm=[0, 2, 1, 3, 5, 4], cost=30)
